@@ -431,6 +431,7 @@ def run(check):
     check.guarded("FANOUT", X.rule_fanout)
     check.guarded("TELEMETRY-SIBLING", rule_siblings)
     check.guarded("METRICS-SHAPE", rule_shape)
+    check.guarded("SNAPSHOT-ORDER", S.rule_snapshot_order)
     return {
         "explanation": "Control-dependence, provenance and sibling-agreement rules over the typed HIR of the telemetry path: where inc is called and under which guard, which results reach update_status and whether their expression is hook-built, one report per transform result on every path, tag origins, agreement of the three Telemetry implementations, and the shaping of the reported metrics.",
         "assumptions": ["fewer than 2^32 propagations per file (u32 counter)", "serde field renaming of Metrics is as derived"],
